@@ -15,7 +15,7 @@ EXCLUDED_BY_CONSTRUCTION = ('internal procedure that reads host variables not ge
 KIND_CLASS = {
     'assign': ('Assignment',), 'do': ('Loop',), 'while': ('WhileLoop',), 'if': ('Conditional',), 'if1': ('Conditional',),
     'select': ('MultiConditional',), 'where': ('MaskedStatement',), 'where1': ('MaskedStatement',),
-    'call': ('CallStatement',),
+    'call': ('CallStatement',), 'assoc': ('Associate',),
 }
 
 
@@ -104,7 +104,7 @@ def run_traced(case):
     out = []
     for vec in case['inputs']:
         it = interp.Interp(case['files'], trace=True)
-        it.run_entry(case['entry'], vec)
+        it.entry_outputs = it.run_entry(case['entry'], vec)
         # the kernel frame is the first frame registered
         fid = min(it.trace.frames)
         out.append((it, fid))
@@ -127,8 +127,27 @@ def parse_kernel(rendered, entry_name):
 # semantic classification helpers (work on the analysed loki IR; names are compared case-folded)
 # ---------------------------------------------------------------------------------------------
 
+_ALIAS = {}
+
+
+def set_alias_map(case):
+    """
+    associate names of the kernel -> selector variable. loki reports the associate name for nodes inside an ASSOCIATE
+    block and the selector for the block itself; the trace speaks in selector (storage) names. ``names_of`` folds every
+    associate name to its selector, i.e. either spelling is accepted from loki (generated associate names are unique).
+    """
+    _ALIAS.clear()
+    _, _, r = kernel_location(case)
+    for _, st_ in walk_stmts(r['body']):
+        if st_[0] == 'assoc':
+            for nm, sel in st_[1]:
+                _ALIAS[nm.lower()] = sel[1][0][0].lower()
+    return dict(_ALIAS)
+
+
 def names_of(symbols):
-    return {str(getattr(s, 'name', s)).lower().split('%')[0] for s in symbols}
+    out = {str(getattr(s, 'name', s)).lower().split('%')[0] for s in symbols}
+    return {_ALIAS.get(x, x) for x in out} if _ALIAS else out
 
 
 def loki_bodies(n):
@@ -227,3 +246,137 @@ def use_drop_cause(n, v, line=None):
 def array_names(case):
     _, _, r = kernel_location(case)
     return {d['name'].lower() for d in r['decls'] if d.get('dims')}
+
+
+# ---------------------------------------------------------------------------------------------
+# generator: gen.cases plus ASSOCIATE blocks (whole-variable selectors) around statement ranges of the kernel
+# ---------------------------------------------------------------------------------------------
+
+def _rename(node, ren):
+    """copy of an FProg statement/expression tree with the first name of every designator renamed through ``ren``"""
+    if isinstance(node, list):
+        if len(node) == 2 and node[0] == 'd' and isinstance(node[1], list) and node[1] and isinstance(node[1][0], list):
+            parts = [[ren.get(node[1][0][0].lower(), node[1][0][0]), _rename(node[1][0][1], ren)]]
+            parts += [[nm, _rename(sub, ren)] for nm, sub in node[1][1:]]
+            return ['d', parts]
+        return [_rename(x, ren) for x in node]
+    if isinstance(node, dict):
+        return {k: _rename(v, ren) for k, v in node.items()}
+    return node
+
+
+def _designator_names(node, out):
+    if isinstance(node, list):
+        if len(node) == 2 and node[0] == 'd' and isinstance(node[1], list) and node[1] and isinstance(node[1][0], list):
+            out.add(node[1][0][0].lower())
+            for _, sub in node[1]:
+                _designator_names(sub, out)
+            return
+        for x in node:
+            _designator_names(x, out)
+    elif isinstance(node, dict):
+        for x in node.values():
+            _designator_names(x, out)
+
+
+def wrap_associate(case, pick):
+    """
+    wrap a contiguous statement range of the kernel body (or of the body of a top-level DO/WHILE) in
+    ``associate (as0 => v0 [, as1 => v1])`` and spell v0/v1 by their associate names inside. ``pick(lo, hi)`` draws ints.
+    DO variables, named constants and the fuel counters of WHILE loops keep their names. Returns the case (modified copy).
+    """
+    import copy
+    case = copy.deepcopy(case)
+    _, _, r = kernel_location(case)
+    containers = [r['body']]
+    for st_ in r['body']:
+        if st_[0] == 'do':
+            containers.append(st_[5])
+        elif st_[0] == 'while':
+            containers.append(st_[2])
+    body = containers[pick(0, len(containers) - 1)]
+    if not body:
+        return case
+    i = pick(0, len(body) - 1)
+    j = pick(i, min(len(body) - 1, i + 3))
+    rng = body[i:j + 1]
+    declared = {d['name'].lower() for d in r['decls'] if not d.get('param')}
+    dovars = {s2[1].lower() for _, s2 in walk_stmts(r['body']) if s2[0] == 'do'}
+    used = set()
+    _designator_names(rng, used)
+    # WHILE fuel counters ('lw..') stay: the generator's termination argument refers to them by name
+    cands = sorted(v for v in used & declared if v not in dovars and not v.startswith('lw'))
+    if not cands or any(s2[0] in ('assoc',) for _, s2 in walk_stmts(rng)):
+        return case
+    k = pick(1, min(2, len(cands)))
+    chosen = []
+    for _ in range(k):
+        v = cands[pick(0, len(cands) - 1)]
+        if v not in chosen:
+            chosen.append(v)
+    ren = {v: f'as{n}' for n, v in enumerate(chosen)}
+    block = ['assoc', [[ren[v], ['d', [[v, None]]]] for v in chosen], _rename(rng, ren)]
+    body[i:j + 1] = [block]
+    return case
+
+
+def cases(profile, assoc_pct=30):
+    from hypothesis import strategies as st
+
+    @st.composite
+    def build(draw):
+        case = draw(gen.cases(profile))
+        if draw(st.integers(0, 99)) < assoc_pct:
+            case = wrap_associate(case, lambda lo, hi: draw(st.integers(lo, hi)) if hi > lo else lo)
+        return case
+    return build()
+
+
+# ---------------------------------------------------------------------------------------------
+# self-check of the reference interpreter against gfortran (sampled)
+# ---------------------------------------------------------------------------------------------
+
+def selfcheck_sampled(case, thorough):
+    from .core import case_hash
+    return int(case_hash(case), 16) % (8 if thorough else 16) == 0
+
+
+def interpreter_vs_gfortran(case, rendered, runs):
+    """
+    'ok' | 'native-traps' | description of the first difference between the outputs of the natively compiled program
+    and the interpreter (integers/logicals exactly, reals to 1e-9 relative)
+    """
+    from .fprog.native import FMT  # noqa: F401  (documents the output format parsed below)
+    try:
+        res = harness.run_original(case, rendered)
+    except OSError:
+        return 'skipped'      # ETXTBSY and the like on a loaded box: no verdict
+    if not res.ok:
+        return 'native-traps'
+    got = {}
+    iv = None
+    for ln in res.out.split('\n'):
+        t = ln.split()
+        if not t:
+            continue
+        if t[0] == 'vector':
+            iv = int(t[1])
+            continue
+        got[(iv, t[0].lower())] = t[1:]
+    for iv, (it, _fid) in enumerate(runs):
+        for nm, val in it.entry_outputs.items():
+            vals = val if isinstance(val, list) else [val]
+            toks = got.get((iv, nm.lower()))
+            if toks is None or len(toks) != len(vals):
+                return f'vector {iv} {nm}: {toks} vs {vals}'
+            for tk, v in zip(toks, vals):
+                if isinstance(v, bool):
+                    same = (tk == 'T') == v
+                elif isinstance(v, int):
+                    same = int(tk) == v
+                else:
+                    f = float(tk)
+                    same = abs(f - v) <= 1e-9 * max(abs(f), abs(v), 1e-300) or (f != f and v != v)
+                if not same:
+                    return f'vector {iv} {nm}: native {tk} vs interpreter {v!r}'
+    return 'ok'
